@@ -13,7 +13,7 @@ demo_install() {
   if [ -f $OUT/demo.diff ]; then git apply $OUT/demo.diff; fi
 }
 demo_run() {
-  if [ -f $OUT/demo.diff ]; then cargo test -p sentinel-core --lib --offline seed_demo 2>&1 | grep -E '^test result|panicked' | head -3
+  if [ -f $OUT/demo.diff ]; then cargo test -p sentinel-core --features "${SEED_FEATURES:-}" --lib --offline seed_demo -- --test-threads=1 2>&1 | grep -E '^test result|panicked' | head -3
   else for f in $OUT/*.rs; do t=$(basename $f .rs); cargo test -p sentinel-core --features "${SEED_FEATURES:-}" --test $t --offline -- --test-threads=1 2>&1 | grep -E '^test result|panicked' | head -3; done; fi
 }
 demo_install
